@@ -8,7 +8,7 @@ from impl import Document, ParserOptions, TagNode, extract, to_xml, no_gc, alter
 import pp_common as pp
 
 REQ = ("From Coq Require Import List NArith ZArith.\nFrom Delb.Base Require Import PyStr.\n"
-       "From Delb.Tree Require Import ATree Merge Encode.\nFrom Delb.Ws Require Import Reduce Pretty Wrap.\n")
+       "From Delb.Tree Require Import ATree Merge Encode.\nFrom Delb.Ws Require Import Reduce Pretty Wrap Qualified.\n")
 
 WIDTHS = [0, 1, 2, 3, 4, 5, 6, 7, 8, 9, 10, 11, 12, 20, 40, 80]
 
@@ -30,6 +30,17 @@ Definition runw (g : list (str * bool * Z)) (T : node) (sr : list nat) : list N 
          | Some c => enc_str (render c) ++ transparent t (seen c)
          | None => []
          end) g
+  end.
+(* the document as the serializer of the sub-tree at the (root-first) path p names it: Ws/Qualified.v *)
+Fixpoint map_at {A} (i : nat) (f g : A -> A) (l : list A) : list A :=
+  match l with [] => [] | x :: r => match i with O => f x :: map g r | S i' => g x :: map_at i' f g r end end.
+Fixpoint qual_at (pf : str -> str) (decl : list attr) (p : list nat) (n : node) : node :=
+  match p with
+  | [] => qual_root pf decl n
+  | i :: p' => match n with
+               | Tag ns name attrs kids => Tag [] (pf ns ++ name) (map (qual_attr pf) attrs) (map_at i (qual_at pf decl p') (qual pf) kids)
+               | _ => n
+               end
   end.
 Definition seen0 (i : str) (a : bool) (t : node) : list N := enc_node (merge_tree (pretty_seen i a t)).
 Definition seenw (i : str) (a : bool) (w : Z) (T : node) (sr : list nat) : list N := enc_node (merge_tree (wrap_seen i a w T sr)).
@@ -62,9 +73,21 @@ def verbatim_newline(t, inside=False):
     return any("\n" in a[2] for a in t[3]) or any(verbatim_newline(c, here) for c in t[4])
 
 
+def subtree_at(T, rp):
+    """rp: child indices, innermost first"""
+    for i in reversed(rp):
+        T = T[4][i]
+    return T
+
+
 def classify(finding, case):
     if finding["cls"] == "verbatim-content-with-newline":
         return case.get("width", 0) > 0 and verbatim_newline(pp.tuple_tree(case["doc"]))
+    if finding["cls"] == "foreign-namespace-after-subtree":
+        T = pp.tuple_tree(case["doc"])
+        t = subtree_at(T, case.get("subtree") or [])
+        return (case.get("width", 0) > 0 and bool(case.get("subtree")) and case.get("raises") == "KeyError"
+                and bool(pp.namespaces_of(T) - pp.namespaces_of(t)))
     if finding["cls"] == "newline-in-indentation":
         # the complement of the theorems' guard `no_lf ind` at width > 0
         return case.get("width", 0) > 0 and "\n" in case.get("indentation", "")
@@ -83,9 +106,17 @@ def replay_open(f):
         if not w:
             continue
         doc = pp.load_reduced(w["xml"])
-        out = pp.real_serialize(doc.root, w["indentation"], w["width"], w["align"])
+        node = doc.root
+        with altered_default_filters():
+            for i in reversed(w.get("subtree") or []):
+                node = list(node.iterate_children())[i]
+        try:
+            out = pp.real_serialize(node, w["indentation"], w["width"], w["align"])
+        except Exception as e:  # noqa: BLE001
+            still = still or type(e).__name__ == w.get("raises")
+            continue
         with no_gc():
-            still = still or roundtrip(out) != extract(doc.root)
+            still = still or roundtrip(out) != extract(node)
     return still
 
 
@@ -169,8 +200,9 @@ def check_docs(ctx, docs, max_sub, n0, nw, seen_rate):
                 ctx.notes.append("generator: parser refused a document: %r" % (e,))
                 continue
             T = extract(doc.root)
-            if not pp.in_domain(T):
+            if not pp.in_domain_ns(T):
                 continue
+            ns_doc = pp.uses_namespaces(T)
             nodes = tag_nodes_with_paths(doc)
             if kind == "deep":
                 picks = list(range(0, len(nodes), 3))
@@ -179,6 +211,13 @@ def check_docs(ctx, docs, max_sub, n0, nw, seen_rate):
             for idx in picks:
                 node, rp = nodes[idx]
                 t = extract(node)
+                view = None
+                if ns_doc:
+                    # the namespace round trip itself is C02 / C13 matter: only trees the plain serialization gives back
+                    if roundtrip(node.serialize()) != t:
+                        ctx.notes.append("namespaced sub-tree skipped: its plain serialization is not read back as the tree")
+                        continue
+                    view = pp.ns_view(node)
                 g = pick_options(ctx, n0, nw, hint)
                 real = []
                 for i, a, w in g:
@@ -187,15 +226,22 @@ def check_docs(ctx, docs, max_sub, n0, nw, seen_rate):
                     except Exception as e:  # noqa: BLE001
                         real.append(None)
                         ctx.fail("serialize raised %s: %s" % (type(e).__name__, e),
-                                 {"xml": xml, "doc": T, "subtree": rp, "indentation": i, "width": w, "align": a}, classify)
-                items.append({"kind": kind, "xml": xml, "T": T, "rp": rp, "t": t, "g": g, "real": real})
+                                 {"xml": xml, "doc": T, "subtree": rp, "indentation": i, "width": w, "align": a,
+                                  "raises": type(e).__name__}, classify)
+                items.append({"kind": kind, "xml": xml, "T": T, "rp": rp, "t": t, "g": g, "real": real, "view": view})
     terms = []
     for it in items:
         g0 = [o for o in it["g"] if o[2] == 0]
         gw = [o for o in it["g"] if o[2] > 0]
         it["g0"], it["gw"] = g0, gw
-        terms.append("run0 %s %s" % (cgrid0(g0), cnode(it["t"])))
-        terms.append("runw %s %s %s" % (cgridw(gw), cnode(it["T"]), cpath(it["rp"])))
+        if it["view"] is None:
+            terms.append("run0 %s %s" % (cgrid0(g0), cnode(it["t"])))
+            terms.append("runw %s %s %s" % (cgridw(gw), cnode(it["T"]), cpath(it["rp"])))
+        else:
+            tbl, decl = it["view"]
+            terms.append("run0 %s (qual_root (pf_of %s) %s %s)" % (cgrid0(g0), pp.ctbl(tbl), pp.cdecl(decl), cnode(it["t"])))
+            terms.append("runw %s (qual_at (pf_of %s) %s %s %s) %s" % (cgridw(gw), pp.ctbl(tbl), pp.cdecl(decl),
+                                                                   cpath(list(reversed(it["rp"]))), cnode(it["T"]), cpath(it["rp"])))
     vals = ctx.coq_eval("c03", PREAMBLE, terms, chunk=16)
     seen_terms, seen_keys = [], []
     for k, it in enumerate(items):
@@ -225,7 +271,7 @@ def check_docs(ctx, docs, max_sub, n0, nw, seen_rate):
                 ctx.mismatch("%s vs serialize(FormatOptions(indentation, width, align_attributes))"
                              % ("pretty (Ws/Pretty.v)" if w == 0 else "wrap_real (Ws/Wrap.v)"),
                              {"case": case, "impl": real, "model": model})
-            elif ctx.rng.random() < seen_rate:
+            elif it["view"] is None and ctx.rng.random() < seen_rate:
                 seen_terms.append("seen0 %s %s %s" % (cstr(ind), cbool(align), cnode(it["t"])) if w == 0 else
                                   "seenw %s %s (%d)%%Z %s %s" % (cstr(ind), cbool(align), w, cnode(it["T"]), cpath(it["rp"])))
                 seen_keys.append((case, real))
@@ -304,6 +350,13 @@ def gen_docs(ctx, n):
     for _ in range(max(6, n // 12)):
         xml, hint = gen_preserve_nested(ctx.rng)
         docs.append(("preserve-nested", xml, hint))
+    # namespaced documents (run through the models as their qualified view)
+    for _ in range(n // 6):
+        hint = ctx.rng.choice(WIDTHS[1:13] + [None])
+        t = pp.gen_mixed_tree(ctx.rng, ctx.rng.choice([1, 2, 2, 3]), width_hint=hint, preserve_rate=0.08)
+        docs.append(("ns-mixed", to_xml(pp.gen_ns_decorate(ctx.rng, t)), hint))
+    for _ in range(n // 12):
+        docs.append(("ns-data", to_xml(pp.gen_ns_decorate(ctx.rng, pp.gen_data_tree(ctx.rng, 2))), ctx.rng.choice(WIDTHS[1:])))
     for _ in range(max(4, n // 25)):
         xml, hint = gen_lf_indent(ctx.rng)
         docs.append(("lf-indent", xml, hint))
@@ -341,7 +394,10 @@ def run(ctx, args):
              "from sampled sub-trees with indentation in {'', ' ', '  ', '\\t', ' \\t'} x width in {0..12, 20, 40, 80} x "
              "align in {F, T} (option sets drawn per tree; widths biased to the document's word lengths); indentations "
              "with a newline ('\\n', ' \\n', '\\n ', '\\t\\n', '\\n\\n') at width 0 everywhere and at width > 0 on "
-             "dedicated documents (text ending in a space before an element, at depth 1-5; mixed documents). "
+             "dedicated documents (text ending in a space before an element, at depth 1-5; mixed documents); mixed and "
+             "conventionally laid out documents with elements in 3 and attributes in 2 namespaces, run through the models "
+             "as their qualified view (Ws/Qualified.v) with the prefix table and declarations read off the real plain "
+             "serialization (root and sub-trees; re-read with the real namespace-aware parser). "
              "One evaluation = one (tree, options) output compared byte for byte with the model and re-read through the "
              "real parser with ParserOptions(reduce_whitespace=True); a sample is also compared at the parsed-tree level. "
              "Non-trivial = the formatted output differs from the plain serialization; distinct by (tree, options).",
